@@ -229,3 +229,36 @@ CHECKS["C01"]["partial"] = [{"theorem": "C01_partial (NoLateEdge)", "missing": "
 CHECKS["C02"]["lean_modules"] = ["SycVerif.Props.C02", "SycVerif.Props.C01Static"]
 CHECKS["C02"]["theorems"] += _static
 CHECKS["C02"]["status"] = "schedule theorems for all arenas; for static dependency graphs the full clause set follows from C01_static_set/C01_static_loop (each computation at most once, every run reads consistent values because the loop invariant keeps all non-pending computations consistent, a run happens only for dirty = notified nodes); dynamic graphs: clause (i) false for late edges (D1)"
+
+HT = "SycVerif.Html."
+SS = "SycVerif.Ssr."
+_ssr_rule = ("exhaustive: every string of length <= 2 (quick) / 3 (thorough) over the alphabet < > & \" ' - ! a ; as static text, dynamic text and attribute value; "
+             "seeded random SsrNode trees built directly (depth <= 3, 21 HTML/SVG/custom tags incl. void elements, 10 attribute and 5 boolean attribute names, hydration keys, dynamic views, markers) and views built through the builder API (tags::*, custom_element, attr with Some/None, bool_attr, text, View::from_dynamic text and views, fragments); strings from a grammar biased to markup metacharacters, comment/CDATA look-alikes, entities, astral, combining, U+0000, U+FFFF; a malformed stream (duplicate attribute names, void elements with children, inner_html) outside the property's premise; every 7th case re-renders an earlier view (determinism across the history); all renders happen on ONE thread, node_count sampled at the start of each render closure. distinct = distinct request line; non-trivial = contains a metacharacter or a dynamic part")
+_ssr_trusted = ["html-escape 0.2.15 modelled by escapeText/escapeAttr (byte map read from its source; exercised through the real crate)",
+                "the reference HTML reader Spec/Html.lean (tokenizer + stack) stands for 'an HTML parser'; raw-text/RCDATA elements, implied end tags, ASCII case folding and input preprocessing are out of scope",
+                "the harness' own Rust tokenizer/tree builder (oracle), written independently of the Lean reader"]
+CHECKS["C08"] = {
+    "manifest_text": "Lean theorem C08_roundtrip over a model of SsrNode + render_recursive + html-escape: EVERY well-formed view (any tree, any Unicode text and attribute values, dynamic text, dynamic views, markers, boolean attributes, hydration keys, void elements) renders without panicking to a string that an independent reference HTML reader (tokenizer + stack tree builder) parses back to exactly the tree that was built, with adjacent text merged and values entity-decoded byte for byte; corollaries C08_injection_safe / C08_values_cannot_inject: whatever the text and attribute values are, the elements (tag + attribute names, in order) and comments of the parsed output are those of the view. Model tied to /repo by rendering hand-built SsrNode trees and builder-API views with the real render_to_string and comparing the bytes with the model's; the real output is also parsed by an independent Rust tokenizer and compared with the view.",
+    "manifest_note": "Premise (stated in the theorem): tag/attribute names match [A-Za-z][A-Za-z0-9:_-]*, no dangerously_set_inner_html, void elements have no children. Out of scope: browser tree-construction quirks (raw-text elements such as script/style/textarea, implied end tags, case folding).",
+    "lean_modules": ["SycVerif.Props.C08"],
+    "theorems": [HT + n for n in ["C08_roundtrip", "C08_text_roundtrip", "C08_injection_safe", "C08_values_cannot_inject"]],
+    "engines": [{"harness": "native", "engine": "ssr"}],
+    "classes": ["ssr-panic", "ssr-unparsable", "ssr-unfaithful"],
+    "status": "full statement proved over the model (all well-formed views, all strings)",
+    "partial": [], "rule": _ssr_rule,
+    "exhaustive_blocks_quick": "all strings of length <= 2 over 9 metacharacters in 4 positions", "exhaustive_blocks_thorough": "all strings of length <= 3",
+    "trusted": _ssr_trusted,
+    "assumptions": ["well-formed names, no inner_html, empty void elements (the theorem's WF premise; the property treats names as developer-supplied literals)"],
+}
+CHECKS["C12"] = {
+    "manifest_text": "Lean theorems over the model of building a view through the builder API with the HydrationRegistry counter: for EVERY view description, suspense scope and registry state the stamped keys are exactly (s,k),(s,k+1),… in document order — dense and duplicate-free — and the counter advances by the number of elements (C12_keys, C12_keys_nodup); the rendered string is a function of the view description alone (C12_deterministic); render_to_string fails iff a void element is given content (C12_render_total). On the real code: thousands of renders of different views on ONE thread with re-renders of earlier views interleaved — outputs must be byte-identical to the model (which has no history) and to the first render, the data-hk keys must be the dense pre-order numbering, and verif::node_count() at the start of every render closure must be constant (a finished render released everything).",
+    "manifest_note": "Partial: blocking (render_to_string_await_suspense) and streaming renders, suspense keys and use_stable_counter are not in the Lean model yet; Root::reinit (what resets keys/counters between renders) is exercised through the real code only. Sync mode is fully covered.",
+    "lean_modules": ["SycVerif.Props.C12Keys"],
+    "theorems": [SS + n for n in ["C12_keys", "C12_deterministic", "C12_keys_nodup", "C12_keys_nodup_from", "C12_render_total", "C12_render_never_fails"]],
+    "engines": [{"harness": "native", "engine": "ssr"}],
+    "classes": ["ssr-node-count", "ssr-nondeterministic", "ssr-unfaithful"],
+    "status": "key discipline and determinism proved for sync rendering of all views; async modes and counters: correspondence/oracle only (planned)",
+    "partial": [{"theorem": "C12 async modes", "missing": "blocking/streaming render order, suspense keys, stable counters over the async machine"}],
+    "rule": _ssr_rule, "trusted": _ssr_trusted,
+    "assumptions": ["sync SSR mode"],
+}
